@@ -2,6 +2,7 @@ package rules
 
 import (
 	"fmt"
+	"sort"
 	"go/token"
 	"go/types"
 	"strings"
@@ -22,8 +23,65 @@ import (
 // connection parameter. Everything else (any other call argument, MakeInterface of a carrier,
 // store outside local containers, return, channel send) is a leak.
 func secretFlow(p *engine.Program, fn *ssa.Function, rp *types.Var, connParam ssa.Value) (leaks []string, nSources, nSinks int) {
+	leaks, nSources, nSinks, _, _ = secretFlowFrom(p, fn, rp, connParam, nil, nil, 0)
+	return
+}
+
+// secretFlowFrom is secretFlow with parameters of fn pre-marked as carriers / tainted (used for
+// private helpers the values are handed to). retTaint / retCarrier: some returned value is tainted / a carrier.
+func secretFlowFrom(p *engine.Program, fn *ssa.Function, rp *types.Var, connParam ssa.Value, seedCarrier, seedTaint []ssa.Value, depth int) (leaks []string, nSources, nSinks int, retTaint, retCarrier bool) {
 	carrier := map[ssa.Value]bool{}
 	taint := map[ssa.Value]bool{}
+	for _, v := range seedCarrier {
+		carrier[v] = true
+	}
+	for _, v := range seedTaint {
+		taint[v] = true
+	}
+	handled := map[ssa.Instruction]bool{}
+	type summary struct {
+		leaks      []string
+		nSinks     int
+		retT, retC bool
+	}
+	summaries := map[string]summary{}
+	// helperCall: a call handing secret-bearing values to a private helper of the same package is analysed in the helper
+	helperCall := func(c *ssa.Call) (summary, bool) {
+		callee := c.Common().StaticCallee()
+		if callee == nil || len(callee.Blocks) == 0 || depth >= 2 || !inPkg(callee, "workceptor") || callee.Object() == nil || callee.Object().Exported() {
+			return summary{}, false
+		}
+		args := c.Common().Args
+		if len(args) != len(callee.Params) {
+			return summary{}, false
+		}
+		var sc, st []ssa.Value
+		var conn ssa.Value
+		key := callee.String()
+		for i, a := range args {
+			if carrier[a] {
+				sc = append(sc, callee.Params[i])
+				key += fmt.Sprintf("|c%d", i)
+			}
+			if taint[a] {
+				st = append(st, callee.Params[i])
+				key += fmt.Sprintf("|t%d", i)
+			}
+			if connParam != nil && engine.Unwrap(a) == connParam {
+				conn = callee.Params[i]
+			}
+		}
+		if len(sc)+len(st) == 0 {
+			return summary{}, false
+		}
+		if sm, ok := summaries[key]; ok {
+			return sm, true
+		}
+		l, _, ns, rt, rc := secretFlowFrom(p, callee, rp, conn, sc, st, depth+1)
+		sm := summary{l, ns, rt, rc}
+		summaries[key] = sm
+		return sm, true
+	}
 	isCarrierType := func(t types.Type) bool {
 		s := t.String()
 		return strings.HasSuffix(s, "workceptor.StatusFileData") || strings.HasSuffix(s, "workceptor.RemoteExtraData") || s == "interface{}" || s == "any"
@@ -217,6 +275,15 @@ func secretFlow(p *engine.Program, fn *ssa.Function, rp *types.Var, connParam ss
 							}
 						}
 					case *ssa.Call:
+						if sm, ok := helperCall(x); ok {
+							handled[x] = true
+							if sm.retT {
+								mark(taint, x)
+							}
+							if sm.retC {
+								mark(carrier, x)
+							}
+						}
 						if engine.IsCallTo(x.Common(), "encoding/json.Marshal") {
 							for _, a := range x.Common().Args {
 								if taint[a] {
@@ -247,6 +314,15 @@ func secretFlow(p *engine.Program, fn *ssa.Function, rp *types.Var, connParam ss
 					}
 				case *ssa.Return:
 					for _, v := range x.Results {
+						if depth > 0 {
+							if taint[v] {
+								retTaint = true
+							}
+							if carrier[v] {
+								retCarrier = true
+							}
+							continue
+						}
 						if taint[v] || carrier[v] {
 							leak(in, "secret-bearing value returned")
 						}
@@ -264,6 +340,9 @@ func secretFlow(p *engine.Program, fn *ssa.Function, rp *types.Var, connParam ss
 					}
 				case ssa.CallInstruction:
 					c := x.Common()
+					if handled[in] {
+						continue
+					}
 					if bi, ok := c.Value.(*ssa.Builtin); ok {
 						switch bi.Name() {
 						case "len", "delete", "append", "cap":
@@ -300,5 +379,10 @@ func secretFlow(p *engine.Program, fn *ssa.Function, rp *types.Var, connParam ss
 			}
 		}
 	}
-	return leaks, nSources, nSinks
+	for _, sm := range summaries {
+		leaks = append(leaks, sm.leaks...)
+		nSinks += sm.nSinks
+	}
+	sort.Strings(leaks)
+	return leaks, nSources, nSinks, retTaint, retCarrier
 }
